@@ -10,6 +10,9 @@ L_DEEP = "P0.1 F P0.1 F P1.1 F P0.1 F"
 L_TOMB = "P1.1 F D1 F P2.2"
 L_SNAP = "P1.2 S P1.2 P1.2 F P1.2 F"
 L_BIG = "P0.2 P1.2 P2.2 P0.2 P1.2 P2.2 F P0.2 P1.2 P2.2 F"
+# two overlapping level-0 tables sharing a key (recovery writes its table to level 0), nothing below
+L_OVL = "P0.1 P1.1 O P1.1 P3.1 O"
+L_OVL2 = "P1.1 P2.1 O P0.1 P1.1 O"
 
 TOGGLES = ["snappy=1", "bloom=1", "mmap=0", "reuse=1", "cache=1", "cache=2", "cmp=1", "paranoid=1"]
 
@@ -22,6 +25,7 @@ def c01_plan(tier):
     if tier == "quick":
         it = ["B1@4/3"] + ["B1,%s@0/2" % t for t in TOGGLES] + ["B2@0/2"]
         it += ["B1@2^" + L_DEEP, "B1,bloom=1,cache=1,mmap=0,snappy=1@2^" + L_DEEP, "B1@2^" + L_TOMB]
+        it += ["B1~rwr@0/2^" + L_OVL, "B1~rwr@0/2^" + L_OVL2, "B1~rwr@0/1^" + L_DEEP]
     else:
         it = ["B1@5/4"] + ["B1,%s@4/3" % t for t in TOGGLES] + ["B2@3/3", "B2,snappy=1,bloom=1@3/2"]
         # full cross product of the boolean toggles at depth 2 (no dedup)
@@ -32,6 +36,7 @@ def c01_plan(tier):
                     t.append(nm)
             if len(t) >= 2:
                 it.append("B1,%s@0/2" % ",".join(t))
+        it += ["B1~rwr@0/3^" + L_OVL, "B1~rwr@0/3^" + L_OVL2, "B1~rwr@0/2^" + L_DEEP, "B1,cmp=1~rwr@0/2^" + L_OVL, "B1~rwr@3/2"]
         for L in (L_DEEP, L_TOMB, L_SNAP, L_BIG):
             it += ["B1@3^" + L, "B1,bloom=1,cache=1,mmap=0,snappy=1@3^" + L, "B1,cmp=1@2^" + L]
     return plan(it)
@@ -102,7 +107,7 @@ PROPS = {
     ),
 }
 
-HOOK_COMMITS = ["ddbbc06", "b854525", "bc60683"]
+HOOK_COMMITS = ["ddbbc06", "b854525", "bc60683", "3ff15b6"]
 
 ENGINES = {
     "hist": "E2: explicit-state BFS over operation histories on the real code, reference-model oracles",
@@ -193,7 +198,7 @@ E1_ASSUME = [
     "states = executions (each a distinct complete schedule of the implementation), transitions = scheduling points executed",
 ]
 
-MC_ALL = "D1,D1f,D2,D2b,D3,D4,D5,D6,D8,D9,D10,D11"
+MC_ALL = "D1,D1f,D2,D2b,D3,D4,D4b,D5,D6,D7,D8,D9,D10,D11,D14"
 
 PROPS["C08"] = dict(
     level="model_checking",
@@ -315,3 +320,19 @@ PROPS["C20"]["stages"].append(dict(name="mc-backup", driver="mc", flavour="asan"
                                    quick=["--scenarios", "D12,D13", "--bound", "2"], thorough=["--scenarios", "D12,D13", "--bound", "3"]))
 PROPS["C20"]["rule"] += "; concurrent stage: ldb_backup racing a batch writer, a flush and a memtable switch (scenarios D12, D13), every schedule within the deviation bound: the backup opens through an independent handle and equals the database at ONE point inside the backup call (linearizability oracle, every batch wholly in or out)"
 PROPS["C20"]["assumptions"] = PROPS["C20"]["assumptions"] + E1_ASSUME[:3]
+
+# crash enumeration over INTERLEAVED journals (every explored schedule of a concurrent scenario)
+for _p in ("C02", "C03"):
+    PROPS[_p]["stages"].append(dict(name="mc-crash", driver="mc", flavour="asan", args=["--prop", _p, "--crash", "1"],
+                                    quick=["--scenarios", "D4,D4b,D1f,D14", "--bound", "2"],
+                                    thorough=["--scenarios", "D4,D4b,D4c,D1f,D6,D2,D3,D14", "--bound", "3"]))
+    PROPS[_p]["rule"] += ("; concurrent stage: for every schedule (deviation bound) of scenarios with sync and non-sync writers, group commit, memtable switch and background flush, "
+                          "every journal index of that interleaved execution is a crash point with images {min, max, dir-ahead, data-ahead}: a batch acknowledged with sync before the crash survives every image, every acknowledged batch survives the process-crash image")
+    PROPS[_p]["assumptions"] = PROPS[_p]["assumptions"] + E1_ASSUME[:3]
+
+PROPS["C13"]["stages"].append(dict(name="mc-crash", driver="mc", flavour="asan", args=["--prop", "C13", "--crash", "1"],
+                                   quick=["--scenarios", "D14,D1f", "--bound", "2"], thorough=["--scenarios", "D14,D1f,D3,D6", "--bound", "3"]))
+PROPS["C13"]["rule"] += ("; concurrent stage: a writer fills and switches the memtable while a compaction is in its unlocked tail (scenario D14) and while a flush is in flight (D1f): "
+                         "for every schedule within the bound, at every journal index (in particular right after every unlink issued by obsolete-file removal) the process-crash image must still "
+                         "contain every acknowledged batch, i.e. no log or table holding data of an in-progress flush/compaction was removed")
+PROPS["C13"]["assumptions"] = PROPS["C13"]["assumptions"] + E1_ASSUME[:3]
